@@ -36,13 +36,14 @@ PROPS = {
         'design_ref': 'DESIGN.md section 6.3',
         'verus_units': [
             {'template': 'units/c07_policy.rs.in', 'modes': [[]], 'canary': True},
+            {'template': 'units/c07_exponent.rs.in', 'modes': [[]], 'canary': True},
         ],
         'kani': [],
         'not_covered': [
             'TypeChecker::check_binary and the compound-assignment check (methods on checker state), const_eval\'s use',
             'determine_binop_plan / emit_binop_expr (TokenStream-valued)',
         ],
-        'assumptions': [],
+        'assumptions': ['A6: integer literals in the syntax tree / IR are non-negative (the lexer scans digits), so negating one cannot overflow'],
     },
     'C19': {
         'design_ref': 'DESIGN.md section 6.4',
